@@ -89,7 +89,7 @@ def run_job(job):
         refs = [ref]
     else:
         refs, queries, truths = pl.gen_set(seed, kinds=job.get('kinds', pl.KINDS), weights=job.get('weights'), odd_refs=job.get('odd_refs', False))
-    d = pl.make_workdir(refs, queries)
+    d = pl.make_workdir(refs, queries, two_colour=(random.Random(seed + 5) if seed % 7 == 3 else None))      # every seventh set is a two-colour CMAP
     out = dict(records=0, nontrivial=0, violations=[], runs=0)
     try:
         with open(os.path.join(d, 'r.cmap')) as f:
